@@ -173,7 +173,9 @@ func (w *c10World) view(n *vnode, peer netip.Addr) string {
 	defer hmap.RUnlock()
 	var parts []string
 	for _, hi := range hmap.unlockedGetHostList(peer) {
-		parts = append(parts, fmt.Sprintf("(m%d init=%v L%d)", w.creator(hi), hi.ConnectionState.initiator, hi.localIndexId))
+		// (in/out: the liveness marks the connection manager reads at its next tick; a replay that sets them changes what
+		// that tick does — e.g. which tunnel it promotes — although nothing else moved yet)
+		parts = append(parts, fmt.Sprintf("(m%d init=%v in=%v out=%v L%d)", w.creator(hi), hi.ConnectionState.initiator, hi.in.Load(), hi.out.Load(), hi.localIndexId))
 	}
 	return fmt.Sprintf("%d%v idx=%d", len(parts), parts, len(hmap.Indexes))
 }
@@ -284,7 +286,7 @@ func TestVerifC10(t *testing.T) {
 					case mg.stage == 1 && holder != nil:
 						heldReplays++
 						if after != before {
-							c.Violation("C10: re-delivered first message whose tunnel is still held changed the responder's tunnels or primary", detail)
+							c.Violation("C10: re-delivered first message whose tunnel is still held changed the responder's tunnels, primary or liveness marks", detail)
 							return key, menu
 						}
 						sawReply := false
